@@ -179,6 +179,7 @@ func corrCanon(c *hc.Ctx) {
 		default:
 			c.Count("canon-out:unchanged-length")
 		}
+		canonBranches(c, d)
 		c.Distinct(fmt.Sprint(off, d))
 		c.Case(patLine("CANON", off, d), "=", fmt.Sprintf("%s %d %s A %s", hc.H(o2), len(d2), hc.Hs(d2...), hc.Hs(arg...)))
 		// purity: the caller's slice must not change
@@ -259,6 +260,19 @@ func corrStart(c *hc.Ctx) {
 		}
 		c.Distinct(fmt.Sprint(off, d))
 		c.Case(patLine("START", off, d), "=", fmt.Sprintf("%d %s", i0, hc.H(pos0)))
+		// branches of dashStart reached (statistics only)
+		switch {
+		case off < 0 && math.Mod(off, P) == 0:
+			c.Count("branch:dashStart offset<0, remainder 0 (no period added)")
+		case off < 0:
+			c.Count("branch:dashStart offset<0, remainder<0 (one period added)")
+		case off < d[0]:
+			c.Count("branch:dashStart loop not entered")
+		case off >= P:
+			c.Count("branch:dashStart loop wraps around the pattern")
+		default:
+			c.Count("branch:dashStart loop inside the first period")
+		}
 		// oracle: piece i0 starts at path position pos0 <= 0, i.e. offset+pos0 is congruent to the
 		// start of piece i0 modulo the period (dyadic values: exact)
 		c.Evals++
@@ -400,6 +414,7 @@ func corrDash(c *hc.Ctx) {
 		}
 		c.Count("dash:" + cls)
 		c.Count("dash:" + ocls)
+		dashBranches(c, off, d, subs)
 		var q *canvas.Path
 		if msg := hc.Try(func() { q = p.Dash(off, append([]float64{}, d...)...) }); msg != "" {
 			c.Case(sb.String(), "=", "PANIC")
@@ -461,4 +476,135 @@ func corrDash(c *hc.Ctx) {
 			c.Sample(fmt.Sprintf("Dash(%v, %v) on %q = %q", off, d, p.String(), q.String()))
 		}
 	}
+}
+
+// dashBranches counts which branches of Dash / dashCanonical an input reaches (statistics for the
+// evidence only; uses the hooks to follow the real canonicalisation and start).
+func dashBranches(c *hc.Ctx, off float64, d []float64, subs []rsub) {
+	o2, d2 := canvas.VerifDashCanonical(off, append([]float64{}, d...))
+	switch {
+	case len(d2) == 0:
+		c.Count("branch:Dash canonical [] -> returns the path")
+		return
+	case len(d2) == 1 && d2[0] == 0:
+		c.Count("branch:Dash canonical [0] -> returns nothing")
+		return
+	}
+	if len(d2) < len(d) {
+		c.Count("branch:Dash pattern shortened by dashCanonical")
+	}
+	if len(d2)%2 == 1 {
+		d2 = append(d2, d2...)
+		c.Count("branch:Dash odd pattern doubled")
+	}
+	i0, pos0, ok := canvas.VerifDashStart(o2, d2)
+	if !ok {
+		return
+	}
+	for _, s := range subs {
+		i, pos, nt, skipped := i0, pos0, 0, 0
+		for pos+d2[i]+1e-10 < s.length {
+			pos += d2[i]
+			if 0 < pos {
+				nt++
+			} else {
+				skipped++
+			}
+			i = (i + 1) % len(d2)
+		}
+		ends := i%2 == 0
+		j0 := 0
+		if nt%2 == 1 && ends || nt%2 == 0 && !ends {
+			j0 = 1
+		}
+		if skipped > 0 {
+			c.Count("branch:Dash position <= 0 skipped")
+		}
+		switch {
+		case nt == 0 && ends:
+			c.Count("branch:Dash no cut, subpath inside a dash (kept whole)")
+		case nt == 0:
+			c.Count("branch:Dash no cut, subpath inside a gap (dropped)")
+		case ends && s.closed && j0 == 0:
+			c.Count("branch:Dash closed, last piece joined with the first")
+		case ends && s.closed:
+			c.Count("branch:Dash closed, last piece kept first, not joined")
+		case ends:
+			c.Count("branch:Dash open, ends in dash")
+		case s.closed:
+			c.Count("branch:Dash closed, ends in gap")
+		default:
+			c.Count("branch:Dash open, ends in gap")
+		}
+		if j0 == 1 {
+			c.Count("branch:Dash starts in gap (j0=1)")
+		} else {
+			c.Count("branch:Dash starts in dash (j0=0)")
+		}
+		if pos+d2[i] == s.length {
+			c.Count("branch:Dash pattern boundary exactly at the subpath end")
+		}
+	}
+}
+
+// canonBranches follows the steps of dashCanonical on a copy (same tests as the code, Epsilon 1e-10)
+// and counts the branches reached (statistics only).
+func canonBranches(c *hc.Ctx, d0 []float64) {
+	eq0 := func(x float64) bool { return math.Abs(x) <= 1e-10 }
+	d := append([]float64{}, d0...)
+	if len(d) == 0 {
+		c.Count("branch:canonical empty input")
+		return
+	}
+	removed := 0
+	for i := 1; i < len(d)-1; i++ {
+		if eq0(d[i]) {
+			d[i-1] += d[i+1]
+			d = append(d[:i], d[i+2:]...)
+			i--
+			removed++
+		}
+	}
+	if removed > 0 {
+		c.Count(fmt.Sprintf("branch:canonical middle zeros removed x%d", min(removed, 3)))
+	}
+	if eq0(d[0]) {
+		if len(d) < 3 {
+			c.Count("branch:canonical first zero, early return [0]")
+			return
+		}
+		c.Count("branch:canonical first zero folded")
+		d[len(d)-1] += d[1]
+		d = d[2:]
+	}
+	if eq0(d[len(d)-1]) {
+		if len(d) < 3 {
+			c.Count("branch:canonical last zero, early return []")
+			return
+		}
+		c.Count("branch:canonical last zero folded")
+		d[0] += d[len(d)-2]
+		d = d[:len(d)-2]
+	}
+	for _, x := range d {
+		if x < 0 || eq0(x) {
+			c.Count("branch:canonical zero or negative entry left, return [0]")
+			return
+		}
+	}
+	halvings := 0
+	for len(d)%2 == 0 {
+		mid, same := len(d)/2, true
+		for i := 0; i < mid; i++ {
+			if math.Abs(d[i]-d[mid+i]) > 1e-10 {
+				same = false
+			}
+		}
+		if !same {
+			break
+		}
+		d = d[:mid]
+		halvings++
+	}
+	c.Count(fmt.Sprintf("branch:canonical repeated halves removed x%d", halvings))
 }
